@@ -99,10 +99,10 @@ func (m *mapIter[K, V]) MoveNext() bool {
 }
 
 func (m *mapIter[K, V]) Current() pair[K, V] {
-	return pair[K, V]{
-		Key: m.iter.Key().Interface().(K),
-		Val: m.iter.Value().Interface().(V),
-	}
+	// comma-ok: a nil interface key / value is the zero value of K / V
+	k, _ := m.iter.Key().Interface().(K)
+	v, _ := m.iter.Value().Interface().(V)
+	return pair[K, V]{Key: k, Val: v}
 }
 
 type chanIter[V any] struct {
